@@ -1157,30 +1157,3 @@ Proof.
   intros Hc Hr. apply scan_text. intros a b -> Hb. apply no_ph_in_clean; [|exact Hb|exact Hr].
   unfold ph_clean in *. apply contains_app_false in Hc. tauto.
 Qed.
-
-Lemma placeholder_replaced_lemma k css ids slash pre post js_b css_b :
-  forallb is_word6 (match css with Some c => c :: ids | None => ids end) = true ->
-  ph_clean pre -> ph_clean post ->
-  subst_placeholders (pre ++ emit_placeholder k css ids slash ++ post) js_b css_b =
-  (pre ++ (match k with KJs => js_b | KCss => css_b end) ++ post,
-   match k with KJs => true | KCss => false end, match k with KJs => false | KCss => true end).
-Proof.
-  intros Hw Hpre Hpost. unfold subst_placeholders.
-  assert (S : scan match_placeholder (pre ++ emit_placeholder k css ids slash ++ post) 0
-              = map Ch pre ++ Hit k :: map Ch post).
-  { rewrite scan_ph_text; [|exact Hpre|right; unfold emit_placeholder; destruct k; eexists; reflexivity].
-    rewrite (scan_hit match_placeholder _ post k).
-    - rewrite <- (app_nil_r post) at 1. rewrite (scan_ph_text post [] Hpost (or_introl eq_refl)). cbn [scan].
-      rewrite app_nil_r. reflexivity.
-    - unfold emit_placeholder. destruct k; discriminate.
-    - apply match_placeholder_emit. exact Hw. }
-  rewrite S. clear S.
-  assert (F : forall t, flat_map (fun it : item kind => match it with Ch c => [c] | Hit KJs => js_b | Hit KCss => css_b end) (map Ch t) = t).
-  { induction t as [|c r IH]; cbn; [reflexivity|]. f_equal. exact IH. }
-  assert (E1 : forall t, existsb (fun it : item kind => match it with Hit KJs => true | _ => false end) (map Ch t) = false).
-  { induction t as [|c r IH]; cbn; [reflexivity|exact IH]. }
-  assert (E2 : forall t, existsb (fun it : item kind => match it with Hit KCss => true | _ => false end) (map Ch t) = false).
-  { induction t as [|c r IH]; cbn; [reflexivity|exact IH]. }
-  rewrite flat_map_app, !existsb_app. cbn [flat_map existsb]. rewrite !F, !E1, !E2.
-  destruct k; reflexivity.
-Qed.
